@@ -49,6 +49,11 @@ func c06(c *Ctx) {
 	}
 	tr := an.NewTracer()
 	r.Rule("R06.F", "a fingerprint of the configured key anywhere in the server's list is accepted: once an element compared equal, the not-found abort cannot happen (early exit, or a flag that stays true)", 1)
+	r.Rule("R06.K", "derived values: tmp_aes_key/iv, the RSA payload, auth_key, new_nonce_hash1 and server_salt are computed by the protocol's formulas (extracted expressions compared with the table)", 6)
+	if c.verifySummaries("R06.K") {
+		c.tempKeys("R06.K")
+		c.handshakeFormulas("R06.K", nil)
+	}
 	c06FingerprintSearch(c, mk, tr)
 	// success exits: returns whose value is nil or derives from SaveSession's result
 	var saves []ssa.Instruction
